@@ -141,7 +141,7 @@ class Ctx:
         return trace, beh, p.stdout, cmd
 
     # ---------------------------------------------------------------- (V)
-    def validate(self, name, module, trace, beh, cmd, timeout=3000):
+    def validate(self, name, module, trace, beh, cmd, timeout=3000, racy=False):
         """TLC trace validation with the two-pass known-findings protocol and confirmation by isolated re-execution"""
         nlines = sum(1 for _ in open(trace))
         if nlines == 0:
@@ -172,7 +172,10 @@ class Ctx:
         confirmed = 0
         bundle_files = []
         if b is not None and cmd is not None:
-            for attempt in range(2):
+            for attempt in range(6 if racy else 2):
+                if racy and confirmed >= 1:
+                    confirmed = 2
+                    break
                 t2 = os.path.join(self.sc, "%s.confirm%d.ndjson" % (name, attempt))
                 c2 = [x for x in cmd]
                 c2[c2.index("--out") + 1] = t2
@@ -187,6 +190,8 @@ class Ctx:
         else:
             confirmed = 2
             bundle_files = [trace]
+        if racy and confirmed >= 1:
+            confirmed = 2
         if confirmed < 2:
             raise NoVerdict("rejection of %s line %d did not reproduce when behaviour was re-executed alone (%d/2)" % (name, line, confirmed))
         path = save_replay(self.prop, "%s-b%s" % (name, b[0] if b else "x"), bundle_files,
@@ -210,15 +215,15 @@ class Ctx:
                 if picked >= k:
                     break
 
-    def gv(self, name, module, args, inputs=None):
-        """drive + validate"""
+    def gv(self, name, module, args, inputs=None, racy=False):
+        """drive + validate; racy: the behaviour involves real concurrency, one reproduction in six re-executions confirms"""
         trace, beh, out, cmd = self.drive(name, args, inputs=inputs)
         self.last_beh = beh
         if "disk" in args and "crash" in args:
             self.notes["crash_runs_enumerated"] = self.notes.get("crash_runs_enumerated", 0) + sum(b[3] for b in beh)
         if inputs is not None and not beh:
             raise NoVerdict("driver %s replayed nothing" % name)
-        return self.validate(name, module, trace, beh, cmd)
+        return self.validate(name, module, trace, beh, cmd, racy=racy)
 
     # ------------------------------------------------------------ evidence
     def finish(self):
@@ -275,7 +280,7 @@ def c02(ctx):
     if not ctx.gv("random-txn-histories", "Trace_Table", ["table", "--mode", "hist", "--mix", "txn", "--seed", str(seed()), "--n", str(n), "--ops", str(ops)]):
         return
     n, ops = (6, 120) if q else (40, 200)
-    ctx.gv("concurrent-readers", "Trace_Table", ["table", "--mode", "conc", "--seed", str(seed()), "--n", str(n), "--ops", str(ops)])
+    ctx.gv("concurrent-readers", "Trace_Table", ["table", "--mode", "conc", "--seed", str(seed()), "--n", str(n), "--ops", str(ops)], racy=True)
 
 
 @check("C03")
@@ -308,7 +313,7 @@ def c09(ctx):
     if not ctx.gv("big-value-scans", "Trace_Table", ["table", "--mode", "bigscan", "--seed", str(seed()), "--n", str(10 if q else 80)]):
         return
     n, ops = (4, 100) if q else (30, 200)
-    ctx.gv("concurrent-readers", "Trace_Table", ["table", "--mode", "conc", "--seed", str(seed()), "--n", str(n), "--ops", str(ops)])
+    ctx.gv("concurrent-readers", "Trace_Table", ["table", "--mode", "conc", "--seed", str(seed()), "--n", str(n), "--ops", str(ops)], racy=True)
 
 
 @check("C12")
@@ -415,7 +420,10 @@ def c07(ctx):
     # a single record larger than the whole MaxInMemLogSize cannot be proposed at all (dragonboat rate-limits it for ever,
     # ordinary writes included): such settings are outside the property; keep threshold 0 (unlimited) and >= 2 units
     adv = [a for a in adv if json.loads(a)["th"] != 1][:60 if q else 1200]
-    ctx.gv("tlc-streams", "Trace_Restore", ["restore", "--seed", str(seed()), "--pit", str(6 if q else 60)], inputs=adv)
+    # point in time under a back-to-back writer at the state machine: 60 command snapshots per behaviour
+    if not ctx.gv("snapshots-under-writes", "Trace_Table", ["table", "--mode", "snapconc", "--seed", str(seed()), "--n", str(8 if q else 80), "--ops", "300"], racy=True):
+        return
+    ctx.gv("tlc-streams", "Trace_Restore", ["restore", "--seed", str(seed()), "--pit", str(6 if q else 60)], inputs=adv, racy=True)
 
 
 DISK_ASSUME = ["fault model exactly as in C04: file data durable up to the file's last sync, directory entries up to the directory's last sync, base data directory durable beforehand (pebble strict MemFS + operation counter)",
